@@ -4,7 +4,7 @@ with suitably typed arguments.
 
 A spec is
   {"name": kernel base name, "operates_on": "cell_column"|"domain"|"dof",
-   "args": [arg...], "funcs": [{"fs","basis","diff"}], "shapes": [shape...], "targets": [fs...],
+   "args": [arg...], "funcs": [{"fs","basis","diff","diff_first"}], "shapes": [shape...], "targets": [fs...],
    "refelem": [prop...], "mesh": [prop...]}
   arg = {"k":"field","dt":"real"|"integer","vec":n,"acc":A,"fs":F,"st":S,"mesh":"none"|"coarse"|"fine"}
       | {"k":"op","acc":A,"to":F,"from":F} | {"k":"cma","acc":A,"to":F,"from":F}
@@ -69,6 +69,8 @@ def kernel_source(md):
         items = []
         for f in md["funcs"]:
             ops = [x for x, on in (("gh_basis", f["basis"]), ("gh_diff_basis", f["diff"])) if on]
+            if f.get("diff_first"):
+                ops.reverse()
             items.append(f"func_type({f['fs']}, {', '.join(ops)})")
         out.append(_array("func_type", "meta_funcs", items))
     if md["refelem"]:
@@ -169,10 +171,16 @@ def _basis_parts(rng, md, p=0.6):
                 spaces.append(a[key])
     if spaces and rng.random() < p:
         k = rng.randint(1, min(3, len(spaces)))
-        chosen = rng.sample(spaces, k)
+        concrete = [f for f in spaces if not f.startswith("any_") or f == "any_w2"]
+        if concrete and rng.random() < 0.9:
+            spaces_f = concrete
+        else:
+            spaces_f = spaces
+        chosen = rng.sample(spaces_f, min(k, len(spaces_f)))
         for fs in chosen:
             b, d = rng.choice([(True, False), (False, True), (True, True)])
-            md["funcs"].append({"fs": fs, "basis": b, "diff": d})
+            md["funcs"].append({"fs": fs, "basis": b, "diff": d,
+                                "diff_first": b and d and rng.random() < 0.3})
         nshape = rng.choice([1, 1, 2, 2, 3])
         md["shapes"] = rng.sample(SHAPES, nshape)
         if "evaluator" in md["shapes"] and rng.random() < 0.5:
